@@ -10,6 +10,7 @@ import (
 
 	"go.mongodb.org/mongo-driver/bson"
 	"go.mongodb.org/mongo-driver/bson/primitive"
+	"go.mongodb.org/mongo-driver/mongo"
 	"go.mongodb.org/mongo-driver/mongo/options"
 
 	"github.com/256dpi/lungo"
@@ -397,7 +398,7 @@ type c09Stats struct {
 }
 
 var c09Actions = []string{"ins d.c", "ins d.e", "ins x.c", "updMany d.c", "txn{ins d.c; ins d.e}", "drop d.c", "dropDB d",
-	"watch client", "watch db d", "watch d.c", "TryNext all", "drain all", "close oldest", "watch d.c startAt(first event ever)"}
+	"watch client", "watch db d", "watch d.c", "TryNext all", "drain all", "close oldest", "watch d.c startAt(first event ever)", "txn{bulk ins+upd d.c} aborted"}
 
 func (r *c09Runner) viol(class, what string) {
 	r.failed = true
@@ -489,6 +490,41 @@ func (r *c09Runner) Step(a int) bool {
 		_ = l.s.Close(w.Ctx)
 		if l.s.TryNext(w.Ctx) || l.s.Next(w.Ctx) {
 			r.viol("seq:next-after-close", l.desc+": Next returned true after Close")
+		}
+	case 14:
+		// a bulk write inside a session transaction that is aborted: nothing of it ever reaches the change log that the
+		// streams read, neither while the transaction is open nor afterwards
+		events := func() int {
+			if ns := w.Engine.Catalog().Namespaces[lungo.Oplog]; ns != nil {
+				return len(ns.Documents.List)
+			}
+			return 0
+		}
+		n0 := events()
+		sess, err := w.Client.StartSession()
+		if err != nil || sess.StartTransaction() != nil {
+			r.viol("seq:session", "cannot start a session transaction")
+			return false
+		}
+		_ = lungo.WithSession(w.Ctx, sess, func(sc lungo.ISessionContext) error {
+			_, _ = w.C("d", "c").BulkWrite(sc, []mongo.WriteModel{
+				mongo.NewInsertOneModel().SetDocument(bD("_id", id+"x", "n", int32(0))),
+				mongo.NewUpdateManyModel().SetFilter(bD()).SetUpdate(bD("$inc", bD("n", int32(1)))),
+			})
+			return nil
+		})
+		if n := events(); n != n0 {
+			r.viol("seq:uncommitted-event-visible", fmt.Sprintf("%d events of an open transaction are in the published change log", n-n0))
+		}
+		for _, l := range r.streams {
+			if _, v := l.step(w.Ctx, &r.h); v != "" {
+				r.viol("seq:"+c09Class(v), "while a transaction with a bulk write is open: "+v)
+			}
+		}
+		_ = sess.AbortTransaction(w.Ctx)
+		sess.EndSession(w.Ctx)
+		if n := events(); n != n0 {
+			r.viol("seq:event-of-aborted-transaction", fmt.Sprintf("%d events of an aborted transaction stay in the change log", n-n0))
 		}
 	case 13:
 		if len(r.h.H) == 0 || len(r.streams) >= 3 {
